@@ -141,8 +141,9 @@ def main(argv):
         spec = props.get(pid)
         base = run_rules(spec, Context(REPO), "quick")
         rep = run_rules(spec, Context(REPO, overlay=overlay), "quick")
-        base_v = {(o.rule, o.site) for o in base.violations}
-        new_v = [o for o in rep.violations if (o.rule, o.site) not in base_v]
+        # exactly what check.py would report: a violation that no committed known finding matches
+        base_v = {o.ident() for o in base.violations if match_known(known, pid, o) is None}
+        new_v = [o for o in rep.violations if match_known(known, pid, o) is None and o.ident() not in base_v]
         lost = len(base.obligations) - len(rep.obligations)
         status = "ok"
         if new_v or rep.analysis_errors:
